@@ -86,6 +86,7 @@ class Agg:
         self.harness = []
         self.clock_positions = set()
         self.labels = collections.Counter()
+        self.known = {}
 
     def to_wire(self):
         return {
@@ -95,6 +96,7 @@ class Agg:
             "clock": [min(self.clock_positions), max(self.clock_positions), len(self.clock_positions)] if self.clock_positions else None,
             "clock_set": list(self.clock_positions)[:200000],
             "labels": dict(self.labels),
+            "known": self.known,
         }
 
 
@@ -110,6 +112,7 @@ def _worker(args):
     prop = load_prop(pid)
     world = get_world()
     agg = Agg()
+    known = load_known()
     t0 = time.perf_counter()
     idx = widx
     seen_sigs = set()
@@ -172,6 +175,16 @@ def _worker(args):
             })
         for v in viols:
             sig = json.dumps(engine.signature(v))
+            k = match_known(pid, v, known)
+            if k is not None:
+                # a listed finding: counted, one example kept, never minimised or reported as VIOLATION
+                kid = k.get("id") or k.get("what", "")[:60]
+                agg.c["known_raw"] += 1
+                if kid not in agg.known:
+                    agg.known[kid] = {"finding": k, "example": {"origin": sc["origin"], "op": v["op"], "sim_obs": v.get("sim_obs"),
+                                                                 "detail": v.get("detail"), "facts": v.get("facts")}, "count": 0}
+                agg.known[kid]["count"] += 1
+                continue
             agg.c["violations_raw"] += 1
             if sig not in seen_sigs and len(agg.viols) < 6:
                 seen_sigs.add(sig)
@@ -219,7 +232,8 @@ def match_known(pid, v, known):
         if "label" in k and k["label"] != v["label"]:
             continue
         facts = v.get("facts", {})
-        if all(facts.get(a) == b for a, b in k.get("match", {}).items()):
+        if all((facts.get(a) in b) if isinstance(b, list) else (facts.get(a) == b)
+               for a, b in k.get("match", {}).items()):
             return k
     return None
 
@@ -248,7 +262,13 @@ def run_check(pid, tier, seed, workers=None, budget=None):
     labels = collections.Counter()
     distinct, programs, clock = set(), set(), set()
     viols, samples = [], []
+    known_seen = {}
     for w in wires:
+        for kid, kv in w.get("known", {}).items():
+            if kid in known_seen:
+                known_seen[kid]["count"] += kv["count"]
+            else:
+                known_seen[kid] = kv
         c.update(w["c"])
         sites.update(w["sites"])
         labels.update(w["labels"])
@@ -295,8 +315,13 @@ def run_check(pid, tier, seed, workers=None, budget=None):
                                "minimiser_executions": res["executions"],
                                "unminimised": bool(res.get("unminimised"))}, fh, indent=1, sort_keys=True, default=str)
                 reported.append((path, v))
+    for kid, kv in sorted(known_seen.items()):
+        print("KNOWN-FINDING: property=%s %s (seen %d times, e.g. run %s op %s)" % (
+            pid, kv["finding"].get("what", ""), kv["count"], kv["example"]["origin"].get("run"),
+            json.dumps(kv["example"]["op"])[:160]))
     for k, res in known_hits:
-        print("KNOWN-FINDING: property=%s %s" % (pid, k.get("what", "")))
+        if (k.get("id") or k.get("what", "")[:60]) not in known_seen:
+            print("KNOWN-FINDING: property=%s %s" % (pid, k.get("what", "")))
     for path, v in reported:
         print("VIOLATION property=%s replay=%s" % (pid, path))
         print("  oracle=%s op=%s sim=%s" % (v["oracle"], v["label"], json.dumps(v.get("sim_obs"), default=str)[:300]))
@@ -349,7 +374,8 @@ def run_check(pid, tier, seed, workers=None, budget=None):
                                 "min_us": min(clock) if clock else None, "max_us": max(clock) if clock else None,
                                 "span_days": round((max(clock) - min(clock)) / 86400e6, 1) if clock else 0},
             "violations_raw": c["violations_raw"],
-            "known_findings_printed": [k.get("what") for k, _ in known_hits],
+            "known_findings_printed": [kv["finding"].get("what") for kv in known_seen.values()] + [k.get("what") for k, _ in known_hits],
+            "known_finding_occurrences": {kid: kv["count"] for kid, kv in known_seen.items()},
             "harness_errors": len(harness),
             "components": {
                 "real": ["src/pendulum (Python; Rust extension when importable)", "zoneinfo + tzdata", "time_machine patched clock",
@@ -368,7 +394,7 @@ def run_check(pid, tier, seed, workers=None, budget=None):
     with open(os.path.join(ROOT, "evidence", "%s.json" % pid), "w") as fh:
         json.dump(ev, fh, indent=1, sort_keys=True, default=str)
     print("%s %s seed=%d: %d runs (%d/h), %d distinct non-trivial interleavings, %d violations, %d known, %.1fs" % (
-        pid, tier, seed, runs, ev["coverage"]["runs_per_hour"], len(distinct), len(reported), len(known_hits), wall))
+        pid, tier, seed, runs, ev["coverage"]["runs_per_hour"], len(distinct), len(reported), len(known_seen) + len(known_hits), wall))
     if harness or runs == 0:
         return EXIT_HARNESS
     if reported:
